@@ -155,7 +155,8 @@ class _ReadSourceGenerator:
                 yield f"stream.seek(o + {field.offset})"
                 current_offset = field.offset
 
-            if self.align and field.offset is None:
+            if self.align and field.offset is None and not (field.bits and not bits_rollover):
+                # A bit field that continues the current unit does not move
                 yield f"stream.seek(-stream.tell() & ({field.alignment} - 1), {io.SEEK_CUR})"
 
         for field in self.fields:
@@ -206,6 +207,8 @@ class _ReadSourceGenerator:
                     prev_bits_type = field_type
                     bits_remaining = (size * 8) - field.bits
                     bits_rollover = True
+                else:
+                    bits_remaining -= field.bits
 
                 yield from flush()
                 yield from align_to_field(field)
